@@ -166,7 +166,7 @@ func (g *Gen) call(st *State, site ssa.Instruction, c *ssa.CallCommon, rt types.
 			}
 		}()
 	}
-	if g.monitorCall(st, c, static) {
+	if g.monitorCall(st, c, static, keys) {
 		return TupleV{}
 	}
 
